@@ -1,0 +1,6 @@
+//go:build !verif
+
+package goat
+
+// verifNewHandler is a no-op without the verif build tag.
+func verifNewHandler(*handler) {}
